@@ -80,6 +80,10 @@ def prep_optgen(ctx, cfg, tier, seed):
     marker = os.path.join(gdir, '.complete')
     gen_src = open(os.path.join(ROOT, 'lib', 'optgen.py'), 'rb').read()
     stamp = hashlib.md5(gen_src).hexdigest()
+    import fcntl
+    os.makedirs(BUILD, exist_ok=True)
+    lock = open(os.path.join(BUILD, 'optgen.lock'), 'w')
+    fcntl.flock(lock, fcntl.LOCK_EX)   # parallel invocations for the same seed generate once
     if not (os.path.exists(marker) and open(marker).read() == stamp):
         srcs = optgen.generate(seed * 1000003 + (1 if tier == 'quick' else 2), nshapes, tier)
         tmpd = tempfile.mkdtemp(prefix='optgen-', dir=BUILD if os.path.isdir(BUILD) else None)
@@ -100,6 +104,8 @@ def prep_optgen(ctx, cfg, tier, seed):
             os.rename(tmpd, gdir)
         except OSError:
             shutil.rmtree(tmpd, ignore_errors=True)   # another invocation won the race with identical content
+    fcntl.flock(lock, fcntl.LOCK_UN)
+    lock.close()
     return {'pkgdir': os.path.join(gdir, cfg['subpkg'])}
 
 OPT_MODES = {'quick': ['checkptr'], 'thorough': ['checkptr', 'asan']}
